@@ -448,7 +448,7 @@ class Sem:
         return norm(self.resolve(e, at))
 
     # ------------------------------------------------------------------ path conditions
-    def conditions(self, stmt: ast.AST, resolve: bool = True) -> List[Tuple[str, bool, ast.AST]]:
+    def _conditions_raw(self, stmt: ast.AST, resolve: bool = True) -> List[Tuple[str, bool, ast.AST]]:
         """[(canonical condition text, polarity, test node)] under which `stmt` runs (within its function)."""
         out: List[Tuple[str, bool, ast.AST]] = []
         node = stmt
@@ -474,6 +474,27 @@ class Sem:
             if isinstance(parent, (ast.For, ast.While)) and blk is parent.body:
                 in_loop = False
             node = parent
+        return out
+
+    def conditions(self, stmt: ast.AST, resolve: bool = True) -> List[Tuple[str, bool, ast.AST]]:
+        """Like _conditions_raw, with `a and b` (known true) and `a or b` (known false) split into their operands."""
+        out: List[Tuple[str, bool, ast.AST]] = []
+        for txt, pol, node in self._conditions_raw(stmt, resolve):
+            out.append((txt, pol, node))
+            try:
+                e = ast.parse(txt, mode="eval").body
+            except SyntaxError:
+                continue
+            work = [(e, pol)]
+            while work:
+                x, p_ = work.pop()
+                while isinstance(x, ast.UnaryOp) and isinstance(x.op, ast.Not):
+                    x, p_ = x.operand, not p_
+                if isinstance(x, ast.BoolOp) and ((isinstance(x.op, ast.And) and p_) or (isinstance(x.op, ast.Or) and not p_)):
+                    for v in x.values:
+                        t2, p2 = canon_cond(v, p_)
+                        out.append((t2, p2, node))
+                        work.append((v, p_))
         return out
 
     def _c(self, test: ast.AST, pol: bool, resolve: bool, owner: ast.AST) -> Tuple[str, bool, ast.AST]:
